@@ -24,7 +24,7 @@ MANIFEST = {
     'note': 'EST_IDX_NA = 0 doubles as "no link" and as the index of the first fake node; aggregate pushes of the start nodes are therefore not paired.',
 }
 EXPLANATION = 'Reciprocal link-store pairing and seed / duration / propagation terms of the estimated-time network construction.'
-RULES = ['C15-1.reciprocal', 'C15-2.seed', 'C15-3.duration', 'C15-4.propagation', 'C15-5.origins', 'C15-6.events', 'C15-7.options']
+RULES = ['C15-1.reciprocal', 'C15-2.seed', 'C15-3.duration', 'C15-4.propagation', 'C15-5.origins', 'C15-6.events', 'C15-7.options', 'C15-8.swap']
 ASSUMPTIONS = []
 
 
@@ -96,6 +96,7 @@ def run(ctx):
     reciprocal(ctx)
     events(ctx)
     options(ctx)
+    swaps(ctx)
     seeds(ctx)
     duration(ctx)
     propagation(ctx)
@@ -402,3 +403,54 @@ def options(ctx):
     r = an.ret()
     ok = r[0] == 'ok' and r[1][0] == 'tuple' and r[1][1][0] == 'loopvar'
     ctx.check(ok, R, 'get_link_idx_options|result', 'the returned set is the set built by the search', 'returns %s' % show(r, an.names)[:120], w)
+
+
+def swaps(ctx):
+    """C15-8.swap: when the backward pass re-links a split (the base node's primary and alternate successor change roles), the
+    duration and the distance to the successor are exchanged together with the links: each of the two nodes receives the value
+    the OTHER node had before the exchange (a true swap, not a copy)"""
+    from .speedprofile import vec_norm
+    R = 'C15-8.swap'
+    b = fn(ctx, 'update_times_backward')
+    if b is None:
+        ctx.unproved(R, 'update_times_backward', 'anchor not found'); return
+    eng = engine(ctx)
+    eng.all_paths.add(b.fid)
+    an = eng.analysis(b)
+    if an.exit_state is None:
+        ctx.unproved(R, 'update_times_backward', 'not analysable', ctx.where(b)); return
+    w = ctx.where(b)
+    for fld in ('time_to_next', 'dist_to_next'):
+        st = [(bb, path, val, span) for bb, path, val, span in an.stores_log if path[0] == ('obj', 1) and len(path) == 3 and path[-1] == ('f', fld)]
+        if len(st) != 2:
+            ctx.bad(R, 'update_times_backward|' + fld, 'expected the two stores of an exchange of %s, found %d' % (fld, len(st)), w); continue
+        (b1, p1, v1, s1), (b2, p2, v2, s2) = st
+        A, B = p1[1][1], p2[1][1]
+        same = mk('eq', strip(A), strip(B))
+
+        def distinct(t):
+            # the two nodes of the exchange are different nodes
+            def f(x):
+                if x[0] == 'eq' and {strip(x[1]), strip(x[2])} == {strip(A), strip(B)}:
+                    return FALSE
+                return x
+            for _ in range(3):
+                t2 = map_term(t, f)
+                if t2 == t:
+                    break
+                t = t2
+            return t
+        n1, n2 = distinct(vec_norm(an, v1)), distinct(vec_norm(an, v2))
+
+        def reads(t):
+            # (index, field) of a plain element read V[i].fld of the (loop-carried) node vector
+            if t[0] == 'proj' and t[2] == ('f', fld) and t[1][0] == 'elem':
+                return strip(t[1][2])
+            if t[0] == 'pre' and t[1][-1] == ('f', fld) and t[1][-2][0] == 'idx':
+                return strip(t[1][-2][1])
+            return None
+        r1, r2 = reads(n1), reads(n2)
+        ok = r1 is not None and r2 is not None and r1 == strip(B) and r2 == strip(A)
+        ctx.check(ok, R, 'update_times_backward|' + fld, 'the two re-linked nodes exchange their %s (each gets the other\'s previous value)' % fld,
+                  'node %s receives the previous value of node %s, node %s that of node %s' % (_s(an, strip(A)), _s(an, r1) if r1 is not None else show(n1, an.names)[:80],
+                                                                                              _s(an, strip(B)), _s(an, r2) if r2 is not None else show(n2, an.names)[:80]), ctx.where(b, s1))
